@@ -1870,6 +1870,11 @@ class DocutilsRenderer(RendererProtocol):
             assert isinstance(
                 result[i], nodes.Node
             ), f'Directive "{name}" returned non-Node object (index {i}): {result[i]}'
+            if isinstance(result[i], nodes.Element) and result[i].line is None:
+                # the directive did not record where its output comes from
+                # (otherwise docutils fills in `document.current_line`,
+                # which by now is the line of the last nested directive)
+                result[i].source, result[i].line = self.document["source"], position
         return result
 
     def render_substitution_inline(self, token: SyntaxTreeNode) -> None:
